@@ -95,6 +95,11 @@ class Ctx:
         self.t0 = time.time()
         self.work = os.path.join(WORK, self.lid)
         os.makedirs(self.work, exist_ok=True)
+        # one run per property at a time: the work directory and gen/Consts_cNN.v are shared
+        # (e.g. a run against a scratch worktree through VERIF_REPO and a run against /repo)
+        import fcntl
+        self._runlock = open(os.path.join(WORK, self.lid + ".runlock"), "w")
+        fcntl.flock(self._runlock, fcntl.LOCK_EX)
         os.makedirs(os.path.join(VERIF, "evidence"), exist_ok=True)
         os.makedirs(os.path.join(VERIF, "replays"), exist_ok=True)
         self.obligations = []      # (name, ok, detail)
@@ -493,7 +498,12 @@ class Ctx:
             "wall_s": round(time.time() - self.t0, 2),
             "violations": len(self.violations),
         }
-        with open(os.path.join(VERIF, "evidence", "%s.json" % self.pid), "w") as f:
+        evdir = os.path.join(VERIF, "evidence")
+        if os.path.realpath(REPO) != "/repo":
+            # a run against a scratch worktree (seeded-change trial) must not replace the evidence of /repo
+            evdir = os.path.join(WORK, "evidence-alt")
+            os.makedirs(evdir, exist_ok=True)
+        with open(os.path.join(evdir, "%s.json" % self.pid), "w") as f:
             json.dump(ev, f, indent=1)
         self.log("obligations %d/%d, evaluations %d, distinct non-trivial %d, violations %d, known findings %d" % (
             dis, obl, self.evaluations, self.distinct_nontrivial, len(self.violations), len(set(self.known_hits))))
